@@ -465,6 +465,11 @@ type Layout struct {
 	CRLF    bool
 	Comment bool
 	Root    string
+	// IncludesLast puts a file's include directives after its own directives;
+	// NoFinalNewline makes every file end without a line break (so that a file
+	// can end in the middle of an include directive's line).
+	IncludesLast   bool
+	NoFinalNewline bool
 }
 
 // CanonLayout is the single-file chronological layout.
@@ -530,6 +535,39 @@ func RandLayout(r *simrt.Rand, j *Journal, maxFiles int) *Layout {
 	}
 	l.CRLF = r.P(0.1)
 	l.Comment = r.P(0.3)
+	l.IncludesLast = r.P(0.25)
+	l.NoFinalNewline = r.P(0.25)
+	return l
+}
+
+// WideLayout is an include tree that is wide and nested at once: the root
+// includes 8-14 files, each of which includes one or two files of its own.
+func WideLayout(r *simrt.Rand, j *Journal) *Layout {
+	l := CanonLayout(j)
+	p := r.Perm(len(l.Order))
+	o := make([]int, len(p))
+	for i, k := range p {
+		o[i] = l.Order[k]
+	}
+	l.Order = o
+	l.Parent = []int{-1}
+	l.Names = []string{"main.knut"}
+	fan := r.Range(8, 14)
+	for f := 1; f <= fan; f++ {
+		l.Parent = append(l.Parent, 0)
+		l.Names = append(l.Names, fmt.Sprintf("w%d/f%d.knut", f, f))
+	}
+	for f := 1; f <= fan; f++ {
+		for k := r.Range(1, 2); k > 0; k-- {
+			l.Parent = append(l.Parent, f)
+			l.Names = append(l.Names, fmt.Sprintf("w%d/sub/g%d_%d.knut", f, f, k))
+		}
+	}
+	nf := len(l.Names)
+	for i := range l.File {
+		l.File[i] = r.Intn(nf)
+	}
+	l.IncludesLast = r.P(0.25)
 	return l
 }
 
@@ -537,7 +575,8 @@ func RandLayout(r *simrt.Rand, j *Journal, maxFiles int) *Layout {
 func (l *Layout) Files(j *Journal) map[string]string {
 	nf := len(l.Names)
 	bufs := make([]strings.Builder, nf)
-	// includes first (relative to the including file)
+	// includes first (relative to the including file), or last
+	incs := make([]strings.Builder, nf)
 	for f := 1; f < nf; f++ {
 		p := l.Parent[f]
 		rel := relPath(path.Dir(l.Names[p]), l.Names[f])
@@ -550,11 +589,14 @@ func (l *Layout) Files(j *Journal) map[string]string {
 				rel = "x/../" + rel
 			}
 		}
-		fmt.Fprintf(&bufs[p], "include \"%s\"\n", rel)
+		fmt.Fprintf(&incs[p], "include \"%s\"\n", rel)
 	}
-	for f := 0; f < nf; f++ {
-		if bufs[f].Len() > 0 {
-			bufs[f].WriteString("\n")
+	if !l.IncludesLast {
+		for f := 0; f < nf; f++ {
+			if incs[f].Len() > 0 {
+				bufs[f].WriteString(incs[f].String())
+				bufs[f].WriteString("\n")
+			}
 		}
 	}
 	for pos, di := range l.Order {
@@ -569,7 +611,13 @@ func (l *Layout) Files(j *Journal) map[string]string {
 	}
 	out := map[string]string{}
 	for f := 0; f < nf; f++ {
+		if l.IncludesLast {
+			bufs[f].WriteString(incs[f].String())
+		}
 		s := bufs[f].String()
+		if l.NoFinalNewline {
+			s = strings.TrimRight(s, "\n")
+		}
 		crlf := l.CRLF
 		for i := range j.Dirs {
 			if strings.Contains(j.Dirs[i].Desc, "\n") {
